@@ -1253,6 +1253,9 @@ def parse_deftype(toks):
 
     letters = set()
     for start, end in ranges:
+        # letter ranges are not case sensitive (DEFINT a-C)
+        start = start.lower()
+        end = end.lower() if end else end
         if end:
             letters.update(
                 chr(c) for c in range(ord(start), ord(end) + 1))
